@@ -252,7 +252,7 @@ pub fn gen(tier: &str, seed: u64, out: &mut dyn FnMut(Value)) {
             }
             calls.push(json!(docs));
         }
-        let rule = json!({"name": "r", "matches": [["$m", ".x == '{{a}}-{{b}}-{{c}}-{{ab}}'"], ["$n", ".y == '{{zz}}{{a}}'"]], "condition": "$m or $n"});
+        let rule = json!({"name": "r", "matches": [["$m", ".x == '{{a}}-{{b}}-{{c}}-{{ab}}'"], ["$n", ".y == '{{zz}}{{a}}'"], ["$o", "rule({{a}}.{{b}})"], ["$p", " rule({{c}})"], ["$q", ".{{a}} == '1'"]], "condition": "$m or $n"});
         if rng.chance(1, 3) {
             // some templates only arrive after the rule
             let late = json!([[[ [*rng.pick(&["a", "b", "c", "zz"]), *rng.pick(&["L", "{{a}}"])] ]]]);
